@@ -1,6 +1,6 @@
 #!/bin/bash
 # usage: try_patch.sh <patch.diff> <Cxx> [more props]  -- apply to /repo, run quick checks, always revert
-patch=$1; shift
+patch=$(realpath "$1"); shift
 cd /repo || exit 2
 if ! git diff --quiet; then echo "/repo dirty"; exit 2; fi
 git apply "$patch" || { echo "patch does not apply"; exit 2; }
